@@ -5,4 +5,4 @@ globals().update(P.make("C18",
     "cconv probe (LMTP client): 1-3 consecutive transactions per connection x 1-3 recipients each (some refused at RCPT) x per-recipient "
     "verdict vectors over {250, 550, multi-line 452} x {LMTPData with callback, Data without}, occasionally separated by Reset. "
     "non-trivial = more than one call; distinct = distinct case line",
-    ["C18_per_transaction (pending)"], lambda tier, rng: [("cconv/lmtp-transactions", P.c18_cases(tier, rng), True)]))
+    ["C18_mail_starts_clean", "C18_rcpt_appends", "C18_reset_clears", "C18_one_callback_per_recipient", "C18_refusal_not_lost"], lambda tier, rng: [("cconv/lmtp-transactions", P.c18_cases(tier, rng), True)]))
